@@ -275,11 +275,6 @@ def classes_of(real, o, w, F):
                 out.add("namespaced-attribute-meets-equal-default-namespace")
     if k == "detach" or k == "delitem" or k == "replace":
         pass
-    if child_op and tgt is not None and tgt[0] == "tag" and not all(F):
-        e = find_el(w, o[1])
-        obj = real.objs[o[1]]
-        if e and e[3][1] is not None and not vis_kids(real, obj, F):
-            out.add("text-bound-over-invisible-text")
     if k == "setitem" and tgt is not None and tgt[0] == "tag" and o[2] == 0 and o[3][0] != "node" \
             and not vis_kids(real, real.objs[o[1]], F):
         out.add("item-assignment-on-childless-node")
